@@ -182,3 +182,29 @@ func DeferredCalls(fn *ssa.Function, m CallM) []ssa.Instruction {
 	}
 	return out
 }
+
+// OnlyCalledFrom reports whether fn is one of the allowed functions (by canonical name of its outermost
+// function) or every one of its static callers among `within` is, recursively (bounded depth).  It is used by
+// who-may rules so that extracting a helper out of an allowed function does not create a new "owner".
+func OnlyCalledFrom(fn *ssa.Function, allowed map[string]bool, within []*ssa.Function, depth int) bool {
+	name := Name(Outermost(fn))
+	if allowed[name] {
+		return true
+	}
+	if depth <= 0 {
+		return false
+	}
+	callers := CallersOf(within, Outermost(fn))
+	if len(callers) == 0 {
+		return false
+	}
+	if len(FuncValueUses(within, Outermost(fn))) > 0 {
+		return false // escapes as a value: callers unknown
+	}
+	for _, cs := range callers {
+		if !OnlyCalledFrom(cs.Parent(), allowed, within, depth-1) {
+			return false
+		}
+	}
+	return true
+}
